@@ -130,7 +130,7 @@ def run_history(ctx, rng, script=None):
                     rec.append([choose(len(pool)) for _ in range(rng.randint(0, 3))])
                 elif op == 'join':
                     rec.append([choose(len(pool)) for _ in range(rng.randint(0, 4))])
-                    rec.append(rng.choice(["list", "list", "tuple", "generator", "bare-str"]))
+                    rec.append(rng.choice(["list", "list", "tuple", "generator", "bare-str", "growing"]))
                 elif op == 'idx':
                     rec.append(rng.randint(-la - 2, la + 1))
                 elif op == 'slice':
@@ -240,6 +240,21 @@ def run_history(ctx, rng, script=None):
                         word = "".join(c for _, m in items for c, _ in m)[:6]
                         items = [(ch, [(ch, sgr.DEFAULT)]) for ch in word]
                         r = a.join(word)
+                    elif how == "growing" and items:
+                        # a generator that yields ONE text object again and again and extends it in place between
+                        # the yields (cumulative prefixes): every item is what the object shows when it is yielded
+                        grow = CHText(items[0][0])
+                        snapshots = [list(items[0][1])]
+
+                        def growing():
+                            yield grow
+                            for x, mx in items[1:]:
+                                nonlocal_grow = grow
+                                nonlocal_grow += x
+                                snapshots.append(snapshots[-1] + mx)
+                                yield nonlocal_grow
+                        r = a.join(growing())
+                        items = [(None, m) for m in snapshots]
                     elif how == "tuple":
                         r = a.join(tuple(x for x, _ in items))
                     elif how == "generator":
